@@ -17,30 +17,42 @@ def gen(n, tier):
     scripts, setups = {}, []
     pairs = [(i, j) for j in range(2, n + 1) for i in range(1, j)]
     ar_choices = [()] + [(k,) for k in range(2, n + 1)] if tier == 'quick' else [tuple(c) for r in range(0, n + 1) for c in itertools.combinations(range(1, n + 1), r)]
+    # how a job names its parents inside its own update: update-relative ids ('in'), absolute ids ('abs', what the
+    # legacy `parent_ids` key becomes), or the first parent absolute and the others relative ('mix')
+    styles = ('in', 'abs') if tier == 'quick' else ('in', 'abs', 'mix')
+
+    def spec(j, base, edges, ar, style):
+        same = [i for i, jj in edges if jj == j and i > base]
+        earlier = [i for i, jj in edges if jj == j and i <= base]
+        if style == 'in':
+            inup, absp = [i - base for i in same], earlier
+        elif style == 'abs':
+            inup, absp = [], earlier + same
+        else:
+            inup, absp = [i - base for i in same[1:]], earlier + same[:1]
+        return ops.job_spec(j - base, parents=inup, abs_parents=absp, abs_group=0, always_run=j in ar)
+
     for mask in range(1 << len(pairs)):
         edges = [p for b, p in enumerate(pairs) if mask >> b & 1]
         for k in range(1, n + 1):  # jobs 1..k in update 1, the rest in update 2
-            for ar in ar_choices:
-                name = f'dag{n}_{mask}_k{k}_ar{"".join(map(str, ar))}'
-                u1 = [('new_update', 'u1', 't1', k, 0)]
-                u1.append(('add_jobs', 'u1', 1, [ops.job_spec(j, parents=[i for i, jj in edges if jj == j], abs_group=0, always_run=j in ar)
-                                                  for j in range(1, k + 1)]))
-                u1.append(('commit_tail', 'u1', 1))
-                scripts[name + '_u1'] = u1
-                if k < n:
-                    u2 = [('new_update', 'u1', 't2', n - k, 0)]
-                    specs = []
-                    for j in range(k + 1, n + 1):
-                        inup = [i - k for i, jj in edges if jj == j and i > k]
-                        absp = [i for i, jj in edges if jj == j and i <= k]
-                        specs.append(ops.job_spec(j - k, parents=inup, abs_parents=absp, abs_group=0, always_run=j in ar))
-                    u2.append(('add_jobs', 'u1', 2, specs))
-                    u2.append(('commit', 'u1', 2))
-                    scripts[name + '_u2'] = u2
-                    setups.append((name, name + '_u1', name + '_u2', []))
-                else:
-                    scripts[name + '_none'] = []
-                    setups.append((name, name + '_u1', name + '_none', []))
+            for style in styles:
+                if style != 'in' and not edges:
+                    continue
+                for ar in (ar_choices if style == 'in' or tier != 'quick' else ar_choices[:1]):
+                    name = f'dag{n}_{mask}_k{k}_ar{"".join(map(str, ar))}' + ('' if style == 'in' else '_' + style)
+                    u1 = [('new_update', 'u1', 't1', k, 0)]
+                    u1.append(('add_jobs', 'u1', 1, [spec(j, 0, edges, ar, style) for j in range(1, k + 1)]))
+                    u1.append(('commit_tail', 'u1', 1))
+                    scripts[name + '_u1'] = u1
+                    if k < n:
+                        u2 = [('new_update', 'u1', 't2', n - k, 0)]
+                        u2.append(('add_jobs', 'u1', 2, [spec(j, k, edges, ar, style) for j in range(k + 1, n + 1)]))
+                        u2.append(('commit', 'u1', 2))
+                        scripts[name + '_u2'] = u2
+                        setups.append((name, name + '_u1', name + '_u2', []))
+                    else:
+                        scripts[name + '_none'] = []
+                        setups.append((name, name + '_u1', name + '_none', []))
     return scripts, setups
 
 
@@ -58,7 +70,7 @@ def check(tier, seed, procs):
         setups = gen(3, 'thorough')[1] + setups[:: 7]
     depth = 7 if tier == 'quick' else 9
     res = bf.run(MONITORS, setups, tier, depth, procs, opts=OPTS, time_budget=100 if tier == 'quick' else 1500)
-    cov = bf.coverage(res, f'all DAGs on {n} jobs x update split x always-run choices = {len(setups)} programs; depth {depth}; '
+    cov = bf.coverage(res, f'all DAGs on {n} jobs x update split x always-run choices x parent-reference style (update-relative / absolute ids) = {len(setups)} programs; depth {depth}; '
                            f'ops: client requests of update 2, scheduler sweep, worker success/failure, canceller sweeps',
                       {'programs': len(setups)})
     return {'coverage': cov, 'violations': res.violations, 'assumptions': bf.ASSUME,
